@@ -23,15 +23,16 @@ import (
 )
 
 type tqRealCase struct {
-	Sizes         []int      `json:"sizes"`                   // one object per entry (batches are sorted by descending size)
-	Scripts       [][]string `json:"scripts"`                 // per object, per storage request: ok | 503 | 500 | 404 | 429 | cut
-	Workers       int        `json:"workers"`                 // lfs.concurrenttransfers
-	Batch         int        `json:"batch"`                   // batch size
-	Retries       int        `json:"retries"`                 // lfs.transfer.maxretries
-	Authenticated bool       `json:"authenticated,omitempty"` // the batch answer marks its objects `authenticated: true` (no credentials are to be added)
-	ExpiresIn     int        `json:"expires_in,omitempty"`    // every action is advertised with this expires_in (seconds); 0 = none
-	SlowMs        int        `json:"slow_ms,omitempty"`       // every storage answer takes this long
-	BatchScript   []string   `json:"batch_script,omitempty"`  // per batch request: ok | 401 (the last entry repeats); a credential helper that always answers is configured
+	Sizes         []int      `json:"sizes"`                     // one object per entry (batches are sorted by descending size)
+	Scripts       [][]string `json:"scripts"`                   // per object, per storage request: ok | 503 | 500 | 404 | 429 | cut
+	Workers       int        `json:"workers"`                   // lfs.concurrenttransfers
+	Batch         int        `json:"batch"`                     // batch size
+	Retries       int        `json:"retries"`                   // lfs.transfer.maxretries
+	Authenticated bool       `json:"authenticated,omitempty"`   // the batch answer marks its objects `authenticated: true` (no credentials are to be added)
+	ExpiresIn     int        `json:"expires_in,omitempty"`      // every action is advertised with this expires_in (seconds); 0 = none
+	SlowMs        int        `json:"slow_ms,omitempty"`         // every storage answer takes this long
+	Foreign       bool       `json:"foreign_members,omitempty"` // the batch answer\'s objects carry members that are the CLIENT\'s business (path, name, missing): they must not steer it
+	BatchScript   []string   `json:"batch_script,omitempty"`    // per batch request: ok | 401 (the last entry repeats); a credential helper that always answers is configured
 	Contents      [][]byte   `json:"-"`
 }
 
@@ -43,6 +44,7 @@ type tqRealObs struct {
 	Valid        map[string]bool `json:"valid"`
 	Gets         map[string]int  `json:"gets"`
 	ExpiredUse   []string        `json:"expired_use,omitempty"` // storage requests that used an action after its advertised expiry
+	Stray        int             `json:"stray,omitempty"`       // files found where a `path` member of the batch answer pointed
 	Batches      int             `json:"batches,omitempty"`     // batch API requests received
 	Panic        string          `json:"panic,omitempty"`
 }
@@ -125,6 +127,24 @@ func tqRealChildMain(workdir, js string) {
 				out.Objects = append(out.Objects, obj{o.Oid, o.Size, tc.Authenticated, map[string]act{"download": {fmt.Sprintf("%s/storage/%s?issued=%d", srv.URL, o.Oid, time.Now().UnixNano()), tc.ExpiresIn}}})
 			}
 			rw.Header().Set("Content-Type", "application/vnd.git-lfs+json")
+			if tc.Foreign {
+				// re-encode with extra members per object
+				raw, _ := json.Marshal(out)
+				var generic map[string]interface{}
+				json.Unmarshal(raw, &generic)
+				if objs, ok := generic["objects"].([]interface{}); ok {
+					for _, o := range objs {
+						if m, ok := o.(map[string]interface{}); ok {
+							m["path"] = filepath.Join(workdir, "elsewhere", fmt.Sprint(m["oid"]))
+							m["name"] = "named-by-the-server"
+							m["missing"] = true
+						}
+					}
+				}
+				os.MkdirAll(filepath.Join(workdir, "elsewhere"), 0o755)
+				json.NewEncoder(rw).Encode(generic)
+				return
+			}
 			json.NewEncoder(rw).Encode(out)
 			return
 		}
@@ -237,10 +257,16 @@ func tqRealChildMain(workdir, js string) {
 			obs.Valid[o] = true
 		}
 	}
+	if ents, _ := os.ReadDir(filepath.Join(workdir, "elsewhere")); len(ents) > 0 {
+		obs.Stray = len(ents)
+	}
 }
 
 func c06Real(c *Ctx, r *Rng, prop string) {
 	n := c.N(48, 1200)
+	if prop == "C02" {
+		n = c.N(16, 300)
+	}
 	self, _ := os.Executable()
 	type res struct {
 		tc  tqRealCase
@@ -293,6 +319,9 @@ func c06Real(c *Ctx, r *Rng, prop string) {
 					tc.Scripts[k] = []string{"ok"}
 				}
 			}
+		}
+		if r.Chance(10) || (prop == "C02" && i%2 == 0) {
+			tc.Foreign = true
 		}
 		if prop == "C15" && i%16 == 5 {
 			// directed: actions valid when the answer arrives run out while the objects wait for the only worker
@@ -355,6 +384,12 @@ func c06Real(c *Ctx, r *Rng, prop string) {
 			continue
 		}
 		c.R.Count("real-adapter.wait-returned")
+		if tc.Foreign {
+			c.R.Count("real-adapter.foreign-members")
+		}
+		if o.Stray > 0 {
+			fail("the client wrote downloaded bytes to a place that the SERVER named in its batch answer (`path` member of an object)", fmt.Sprintf("%d files", o.Stray))
+		}
 		if len(tc.BatchScript) > 0 {
 			c.R.Count("real-adapter.batch-401")
 			// every batch request of the queue (at most one per object and attempt) is sent at most 1 + 3 times
